@@ -726,6 +726,7 @@ func (e *Explorer) RunPrefix(j *Job, prefix []string, concrete map[string]uint64
 	}
 	CallStack = nil
 	firstHostStack = ""
+	initDepth = 0
 	resetSched()
 	resetModels()
 	fuel = j.Fuel
